@@ -90,7 +90,7 @@ def q_is_aggregate(q):
 # ----------------------------------------------------------------------------------------------
 # printers
 
-def lit_text(s, quote="'"):
+def lit_text(s, quote="'", raw_ws=False):
     out = []
     for c in s:
         if c == '\\':
@@ -101,7 +101,7 @@ def lit_text(s, quote="'"):
             out.append('\\n')
         elif c == '\r':
             out.append('\\r')
-        elif c == '\t':
+        elif c == '\t' and not raw_ws:
             out.append('\\t')
         else:
             out.append(c)
@@ -128,6 +128,7 @@ class Spelling(object):
         self.asc_explicit = False
         self.list_sep = ', '         # separator inside select / assignment / key lists
         self.assign_eq = ' = '       # the assignment sign in UPDATE
+        self.paren_pad = ''          # blanks just inside the parentheses of aggregate / UNNEST calls: COUNT( * ), SUM( a1 )
         self.__dict__.update(kw)
 
     def kw(self, word):
@@ -136,6 +137,20 @@ class Spelling(object):
         if self.kwcase == 'lower':
             return word.lower()
         return ''.join(c.upper() if i % 2 == 0 else c.lower() for i, c in enumerate(word))
+
+
+def clause_names(q, from_a=False):
+    """the clauses that follow the SELECT / UPDATE list in the text of q, in canonical order (the names Spelling.clause_perm permutes)"""
+    out = []
+    if q['kind'] == 'select':
+        if from_a: out.append('from')
+        if q.get('top') and q['top'][0] == 'LIMIT': out.append('limit')
+        if q.get('except_cols') is not None: out.append('except')
+    if q.get('join'): out.append('join')
+    if q.get('where') is not None: out.append('where')
+    if q.get('group') is not None: out.append('group')
+    if q.get('order') is not None: out.append('order')
+    return out
 
 
 def render_expr(e, lang, sp):
@@ -157,7 +172,7 @@ def render_expr(e, lang, sp):
             return '%s[%s]' % (t, lit_text(name, "'"))
         return name
     if k == 'lit':
-        return lit_text(e[1], e[2] if len(e) > 2 else sp.quote)
+        return lit_text(e[1], e[2] if len(e) > 2 and e[2] else sp.quote, raw_ws=len(e) > 3)      # ('lit', s, quote-or-None, 'raw'): a TAB is written as the character itself, not as \\t
     if k == 'int':
         return str(e[1])
     if k == 'none':
@@ -216,18 +231,18 @@ def render_expr(e, lang, sp):
         name = {'U': e[1], 'l': e[1].lower(), 'C': e[1][0] + e[1][1:].lower()}[e[2]]
         arg = e[3]
         if arg[0] == 'star':
-            return '%s(*)' % name
+            return '%s(%s*%s)' % (name, sp.paren_pad, sp.paren_pad)
         if len(e) > 4:
             # ARRAY_AGG's documented second argument: a callback applied to the aggregated list
             cb = {'sorted_top2': ('lambda v: sorted(v)[:2]', 'v => v.sort().slice(0, 2)'), 'count': ('lambda v: len(v)', 'v => v.length'), 'joined': ("lambda v: '|'.join(v)", "v => v.join('|')"), 'others': ('lambda v: [x for x in v if x != v[0]]', 'v => v.filter(x => x != v[0])'), 'count_minus_one': ('lambda v: len(v) - 1', 'v => v.length - 1')}[e[4]]
             return '%s(%s, %s)' % (name, R(arg), cb[0] if lang == 'py' else cb[1])
-        return '%s(%s)' % (name, R(arg))
+        return '%s(%s%s%s)' % (name, sp.paren_pad, R(arg), sp.paren_pad)
     if k == 'star':
         return '*' if e[1] is None else e[1] + '.*'
     if k == 'unpack':
         return ('*%s' if lang == 'py' else '...%s') % R(e[1])
     if k == 'unnest':
-        return '%s(%s)' % (e[2] if len(e) > 2 else 'UNNEST', R(e[1]))
+        return '%s(%s%s%s)' % (e[2] if len(e) > 2 else 'UNNEST', sp.paren_pad, R(e[1]), sp.paren_pad)
     if k == 'alias':
         return '%s %s %s' % (R(e[1]), e[3] if len(e) > 3 else 'AS', e[2])
     if k == 'call':
